@@ -21,16 +21,16 @@ def grid(t):
     return out
 
 
-def span_area(x, y, z, t, r0=1, c0=1, **kw):
-    tab = mk(r0, c0)
+def span_area(x, y, z, t, r0=1, c0=1, n=3, **kw):
+    tab = mk(r0, c0, n)
     g0 = grid(tab)
     first = tab.set_span((x, y, z, t))
     g1 = grid(tab)
     notes = []
-    if first is not True or tab.size != (3, 3):
+    if first is not True or tab.size != (n, n):
         notes.append(f"set_span returned {first}, size {tab.size}")
-    for yy in range(3):
-        for xx in range(3):
+    for yy in range(n):
+        for xx in range(n):
             tag, val, cs, rs = g1[yy][xx]
             inside = x <= xx <= z and y <= yy <= t
             if val != g0[yy][xx][1]:
